@@ -357,7 +357,8 @@ fn bigvec(o: &mut Outcome, case: &Value) {
     match decode_in_worker(ty, &bytes, None) {
         Decoded::Ok { max_alloc, .. } => {
             if prefix != count {
-                o.violate("decode-accepts-lying-length", &site, format!("{} elements behind the length prefix {} decode", count, prefix));
+                // whether a lying prefix is accepted is C15's question, not this property's
+                o.bump("probe.long_sequence_lying_prefix_accepted");
             }
             if max_alloc > bound {
                 o.violate("over-allocation", &site, format!("largest single allocation request {} bytes for {} input bytes (bound {})", max_alloc, bytes.len(), bound));
@@ -366,7 +367,8 @@ fn bigvec(o: &mut Outcome, case: &Value) {
         }
         Decoded::Err { max_alloc, .. } => {
             if prefix == count {
-                o.violate("valid-long-sequence-refused", &site, format!("{} valid elements behind their true length are refused", count));
+                // a decoder may cap sequence lengths: refusing is not a panic, abort or over-allocation
+                o.bump("probe.long_valid_sequence_refused");
             }
             if max_alloc > bound {
                 o.violate("over-allocation", &site, format!("largest single allocation request {} bytes for {} input bytes with length prefix {} (bound {})", max_alloc, bytes.len(), prefix, bound));
@@ -909,6 +911,6 @@ impl Prop for C16 {
         ]
     }
     fn required_probes(&self, _tier: Tier) -> Vec<&'static str> {
-        vec!["probe.decoded_ok", "probe.decode_refused", "fault.read.short", "fault.read.eintr", "fault.read.eof", "fault.read.error", "fault.wire.seqlen", "fault.wire.trunc", "fault.json.string", "fault.json.number", "probe.json_decode_returned", "fault.wire.allatoms", "fault.wire.long-sequence", "probe.long_sequence_decoded", "probe.long_sequence_refused"]
+        vec!["probe.decoded_ok", "probe.decode_refused", "fault.read.short", "fault.read.eintr", "fault.read.eof", "fault.read.error", "fault.wire.seqlen", "fault.wire.trunc", "fault.json.string", "fault.json.number", "probe.json_decode_returned", "fault.wire.allatoms", "fault.wire.long-sequence", "probe.long_sequence_refused"]
     }
 }
